@@ -216,3 +216,19 @@ func ReadDigests(path string) []uint64 {
 	}
 	return out
 }
+
+// StreamReplay serves the diagnostic re-run of a seed whose run killed the process: if
+// the job asks for it (Extra["stream"]), the replay object is written before the run
+// starts and the returned sink streams every scheduling decision to the same file.
+func StreamReplay(job *Job, replay func() interface{}) func(uint32) {
+	p := job.Extra["stream"]
+	if p == "" {
+		return nil
+	}
+	so, err := OpenOut(p)
+	if err != nil {
+		Fatalf("%v", err)
+	}
+	so.Line(map[string]interface{}{"t": "replay", "replay": replay()})
+	return func(x uint32) { so.Line(map[string]interface{}{"t": "tape", "x": x}) }
+}
